@@ -67,6 +67,11 @@ def gen_cases(tier, seed, gen, effort):
         add(chain, v)
     if rnd.random() < 2:
         add(["nosuchmod"], "a"); add(["contains", "nosuchmod"], "a")
+    # placeholders next to every other string modifier, in both orders (a later modifier must keep the placeholders of `expand`)
+    for m in ["windash", "contains", "startswith", "endswith", "cased", "all", "base64", "base64offset", "wide", "utf16be", "neq"]:
+        for v in ["%tool% -k", "%tool%", "-a %x% /b", "a\\%b%c", "x%p%", ["%p%", "-q"]]:
+            add(["expand", m], v); add([m, "expand"], v)
+            add(["expand", m, "contains"], v)
     return cases, True
 
 
